@@ -1,12 +1,13 @@
 (* Extraction of the aliasing models (Model/WriterAlias.v: a writer session with the caller's in-place edits, with-blocks left
    by an exception; Model/DataAlias.v: LasData objects derived from one another) to OCaml for the correspondence checks of
-   C04 and C01. ExtrOcamlBasic only; Z/N/positive/nat stay the extracted inductive datatypes. *)
+   C04 and C01; round 5: Model/Pairing.v (the gate that pairs a record with a header, on C13's Model/ExtraDims.v). ExtrOcamlBasic only; Z/N/positive/nat stay the extracted inductive datatypes. *)
 Require Extraction.
 Require Import ExtrOcamlBasic.
 From Coq Require Import ZArith List.
-From LasV Require Import Lib.Base Lib.Layout Model.Las Model.WriterAlias Model.DataAlias.
+From LasV Require Import Lib.Base Lib.Layout Model.Las Model.WriterAlias Model.DataAlias Model.ExtraDims Model.Pairing.
 Extraction Language OCaml.
 Extraction "../ocaml/c04/model.ml"
   Z.add Z.mul Z.sub Z.div_eucl Z.compare Z.of_nat Z.to_nat
   sopen plain_run with_run apply_cedit fdesc_eqb
-  world_of dstep drun view write_obj.
+  world_of dstep drun view write_obj
+  gate gate_by_name pair_up write_state read_state field_of.
